@@ -245,6 +245,53 @@ func runC19(c *Ctx) error {
 			qterms = append(qterms, fmt.Sprintf("(%s,(%d,%d,%s,%d))", coqList(qs), code, rcode, ansN, srcCode[src]))
 		}
 		c.Case(fmt.Sprintf("(%s,%s)", cfgTerm, coqList(qterms)), map[string]any{"cfg": cfgTerm})
+		// the sources change while the server runs (a stored mapping is pointed at another router or
+		// removed through the dashboard): every later answer comes from what the sources hold THEN
+		for ri := 0; ri < len(maps) && ri < 4; ri++ {
+			mi := c.Rng.IntN(len(maps))
+			name := maps[mi].k
+			ask := func() (int, netip.Addr) {
+				msg := new(mdns.Msg)
+				msg.Id = uint16(c.Rng.IntN(65536))
+				msg.Question = []mdns.Question{{Name: name + ".", Qtype: 28, Qclass: 1}}
+				w := &recWriter{}
+				if pan, _ := recoverPanic(func() { srv.ServeDNS(w, msg) }); pan || w.msg == nil {
+					return -1, netip.Addr{}
+				}
+				var ans netip.Addr
+				for _, rr := range append(append([]mdns.RR(nil), w.msg.Answer...), w.msg.Extra...) {
+					if a, ok := rr.(*mdns.AAAA); ok {
+						ans, _ = netip.AddrFromSlice(a.AAAA)
+					}
+				}
+				return w.msg.Rcode, ans
+			}
+			ask() // whatever it is now, it has been asked once
+			step := "re-pointed"
+			if c.Rng.IntN(3) == 0 {
+				step = "removed"
+				_ = mem.DeleteMapping(name)
+				maps = append(maps[:mi], maps[mi+1:]...)
+			} else {
+				k++
+				maps[mi].ip = ipFor(k)
+				_ = mem.SaveMapping(name, maps[mi].ip)
+			}
+			rcode, ans := ask()
+			c.Eval()
+			c.Count("mapping-" + step)
+			wip, wsrc, _ := spec(name)
+			answers := wsrc != "" && wsrc != "forbidden"
+			rep := map[string]any{"name": name, "step": step, "cfg": cfgTerm}
+			switch {
+			case rcode < 0:
+				c.Violate("a DNS query got no reply (handler crashed)", "dns-noreply", rep)
+			case !answers && rcode != mdns.RcodeNameError:
+				c.Violate(fmt.Sprintf("after its mapping was %s, a name no source holds any more is still answered (%s)", step, ans), "dns-stale-answer", rep)
+			case answers && (rcode != mdns.RcodeSuccess || ans != wip):
+				c.Violate(fmt.Sprintf("after its mapping was %s the answer is %s, but the first matching source %q holds %s", step, ans, wsrc, wip), "dns-stale-answer", rep)
+			}
+		}
 		if ci < 2 {
 			c.Sample(map[string]any{"resolve": fmt.Sprintf("%v", st.ResolveConfig), "friends": fmt.Sprintf("%v", st.FriendConfigs), "mappings": len(maps)})
 		}
